@@ -111,6 +111,7 @@ var generators = []generator{
 	{"keyspaces", []string{"R15b", "R15c", "R15d", "R15e"}, func(c *Ctx, _ map[string]bool) { keyspaceRules(c) }},
 	{"write-protocol", []string{"R16a", "R16b", "R16c", "R16d"}, func(c *Ctx, _ map[string]bool) { writeProtocolRules(c) }},
 	{"size-limits", []string{"R18b", "R18c", "R18d"}, func(c *Ctx, _ map[string]bool) { sizeLimitRules(c) }},
+	{"status-mapping", []string{"R17d"}, func(c *Ctx, _ map[string]bool) { statusMapping(c) }},
 }
 
 // runOwned runs the generators that can emit one of the property's rules.
@@ -193,11 +194,11 @@ func init() {
 	prop("C16", []string{"R16a", "R16b", "R16c", "R16d", "R12g", "R01c", "R01e"},
 		structural+"Decided: (R16a) SendAndClose with a success response is dominated by the Put result (nil, or io.EOF for already present); (R16b) committed_size is assigned only the four documented values; (R16c) the Put goroutine starts only for a first message with offset 0, a parsable name and a size within limits, and every protocol violation sends a real error to the result channel; (R16d) QueryWriteStatus reports complete with the full size exactly on presence; (R12g) the resource-name templates this code base writes are accepted by its own grammar; (R01c/R01e) 'more or fewer bytes than declared fails and stores nothing' rests on the store itself: the stream Write pipes into Cache.Put reaches the verifying writer unwrapped and uncut, which compares length and SHA-256 and probes for trailing bytes before its only success return.",
 		"Not decided: that any REAPI-conformant prefix/suffix parses (quantifies over strings; the regular expressions are not compared with the REAPI grammar), number of bytes actually received.")
-	prop("C17", []string{"R17a", "R17b", "R17c", "R17e", "R17f", "R17g"},
-		structural+"Decided: (R17a) in Reserve the hard-limit rejection dominates every eviction and counter store (refusal evicts nothing, stores nothing); (R17b) the compared quantity is currentSize + queuedEvictionsSize + requested size; (R17c) the backlog counter is increased on queueing and decreased by the same field after the file was removed (retry succeeds later); (R17e) the limit is active only when configured > 0 and 507 is produced nowhere else; (R17f) every file creation is dominated by a successful admission; (R17g) hits are returned without admission.",
-		"Not decided: HTTP 507 / RESOURCE_EXHAUSTED mapping in package server (error code translation is checked only as far as R01h), timing of the background remover.")
-	prop("C18", []string{"R18a", "R18b", "R18c", "R18d", "R12d", "R10b"},
-		structural+"Decided: (R18a) Put rejects size > max_blob_size before reserving; (R18b) every ingress guard in package server is the strict comparison size > limit on the very value handed to Put (exactly-the-limit accepted, nothing stronger); (R18c) one configured value flows unchanged to the disk cache, the HTTP server, the gRPC server and GetCapabilities; (R18d/R12d/R10b) every backend lookup, every queued existence check and every use of a backend-reported size is dominated by the max_proxy_blob_size comparison.",
+	prop("C17", []string{"R17a", "R17b", "R17c", "R17d", "R17e", "R17f", "R17g"},
+		structural+"Decided: (R17a) in Reserve the hard-limit rejection dominates every eviction and counter store (refusal evicts nothing, stores nothing); (R17b) the compared quantity is currentSize + queuedEvictionsSize + requested size; (R17c) the backlog counter is increased on queueing and decreased by the same field after the file was removed (retry succeeds later); (R17e) the limit is active only when configured > 0 and 507 is produced nowhere else; (R17f) every file creation is dominated by a successful admission; (R17g) hits are returned without admission; (R17d) on every write path of package server the error of Cache.Put - followed through copies, result channels and returns to callers - is translated by gRPCErrCode, whose table maps 507 to RESOURCE_EXHAUSTED (400 to INVALID_ARGUMENT, 404 to NOT_FOUND), or is answered over HTTP with the cache error's own code.",
+		"Not decided: timing of the background remover; that a retry succeeds once the backlog has drained (liveness).")
+	prop("C18", []string{"R18a", "R18b", "R18c", "R18d", "R12d", "R10b", "R17d"},
+		structural+"Decided: (R18a) Put rejects size > max_blob_size before reserving; (R18b) every ingress guard in package server is the strict comparison size > limit on the very value handed to Put (exactly-the-limit accepted, nothing stronger); (R18c) one configured value flows unchanged to the disk cache, the HTTP server, the gRPC server and GetCapabilities; (R18d/R12d/R10b) every backend lookup, every queued existence check and every use of a backend-reported size is dominated by the max_proxy_blob_size comparison.; (R17d) the disk-level refusal (cache error 400) reaches gRPC clients as INVALID_ARGUMENT and HTTP clients as 400 on every write path (handlers without a guard of their own - UpdateActionResult, FetchBlob - rely on it).",
 		"Not decided: that the logical size of compressed uploads equals the declared one (C01), client error codes.")
 	prop("C19", []string{"R19a", "R19b", "R19c", "R19d", "R19e", "R19f", "R19g"},
 		structural+"Decided: (R19a/b/c/d) every command-line flag is read with the accessor of its own type into the field whose YAML tag is the flag's name, defaults agree, every flag is read and every YAML field has a flag; (R19e) both front ends return a configuration only through the one validator; (R19g) both normalise the listener addresses alike; (R19f) for each class of invalid set-up named by the property the validator has an error exit reached exactly by that defect (class-sliced exploration of validateConfig).",
